@@ -164,22 +164,16 @@ impl PatchHeader {
 
     /// Set the description of the patch.
     pub fn set_description(&mut self, description: &str) {
+        // Replace the first line with ours, keeping the long description
+        let replace_first_line = |current: &str| match current.split_once('\n') {
+            Some((_, rest)) => format!("{}\n{}", description, rest),
+            None => description.to_string(),
+        };
         if let Some(subject) = self.0.get("Subject") {
-            // Replace the first line with ours
-            let new = format!(
-                "{}\n{}",
-                description,
-                subject.split_once('\n').map(|x| x.1).unwrap_or("")
-            );
-            self.0.set("Subject", new.as_str());
-        } else if let Some(description) = self.0.get("Description") {
-            // Replace the first line with ours
-            let new = format!(
-                "{}\n{}",
-                description.split_once('\n').map(|x| x.1).unwrap_or(""),
-                description
-            );
-            self.0.set("Description", new.as_str());
+            self.0.set("Subject", replace_first_line(&subject).as_str());
+        } else if let Some(current) = self.0.get("Description") {
+            self.0
+                .set("Description", replace_first_line(&current).as_str());
         } else {
             self.0.set("Description", description);
         }
